@@ -48,6 +48,10 @@ def w_cli(job):
         e = CLI_EXPRS[k % len(CLI_EXPRS)]
         opt = (k // len(CLI_EXPRS)) % 2
         pad = " ".join(f"a = a + {i % 3};" for i in range((k // (2 * len(CLI_EXPRS))) * n_stmts))
+        if n_stmts >= 300:
+            # a long chain through a LOCAL (every statement consumes the previous one's value once loads are forwarded), with the
+            # same constants at its start and at its end
+            pad = "int r = a + 1; " + "r = r + 3; r = r - 2; " * (n_stmts // 2) + "r = r + 1; a = a + r - r;"
         rt = "float" if "x" in e and not any(c in e for c in ("<", ">", "==", "!=", "&&", "||")) else "int"
         src = f"export function f(int a, int b, float x) -> {rt} {{ {pad} return {e}; }}\n"
         d = tempfile.mkdtemp(prefix="nslmc-cli-")
@@ -61,7 +65,7 @@ def w_cli(job):
                 if res.ok:
                     key = "C17|CLI|nslc-command-fails|exit=%s" % c.returncode
                     counts[key] = counts.get(key, 0) + 1
-                    fails.append({"key": key, "source": src, "cli": k, "expected": "nslc.py writes p.nslir", "observed": (c.stdout + c.stderr).decode()[-300:]})
+                    fails.append({"key": key, "source": src, "cli": k, "cli_stmts": n_stmts, "expected": "nslc.py writes p.nslir", "observed": (c.stdout + c.stderr).decode()[-300:]})
                 continue
             for a, b, x in ((7, 2, 1.5), (-3, 5, 0.25)):
                 r = subprocess.run([sys.executable, os.path.join(root, "nslr.py"), "run", "p.nslir", "f", str(a), str(b), str(x)], cwd=d, env=env,
@@ -83,7 +87,7 @@ def w_cli(job):
                 if r.returncode != 0 or got is None or float(want) != got:
                     key = "C17|CLI|nslr-result-differs"
                     counts[key] = counts.get(key, 0) + 1
-                    fails.append({"key": key, "source": src, "cli": k, "args": [a, b, x], "expected": repr(want), "observed": (r.stdout + r.stderr).decode()[-300:]})
+                    fails.append({"key": key, "source": src, "cli": k, "cli_stmts": n_stmts, "args": [a, b, x], "expected": repr(want), "observed": (r.stdout + r.stderr).decode()[-300:]})
         finally:
             shutil.rmtree(d, ignore_errors=True)
     return n, fails, counts
@@ -243,6 +247,9 @@ def run(tier, seed):
     out = _family_run(tier, seed)
     total = 20 if tier == "quick" else 300
     jobs = [(lo, min(total, lo + 2), 40) for lo in range(0, total, 2)]
+    # long statement chains through the genuine command line (default recursion limit of a fresh interpreter): k = 40 + j gives
+    # (40 + j) // 40 * n_stmts statements; -O 0 and -O 1
+    jobs += [(40, 41, 300), (60, 61, 300), (40, 41, 600), (60, 61, 600), (40, 41, 1000), (60, 61, 1000)]
     res = pool.pmap(w_cli, jobs)
     n = 0
     for a, fl, c in res:
@@ -321,7 +328,7 @@ def replay(rec, verbose=True):
             print(fl)
         return any(f["key"] == rec["key"] for f in fl)
     if "cli" in rec:
-        n, fl, _ = w_cli((rec["cli"], rec["cli"] + 1, 40))
+        n, fl, _ = w_cli((rec["cli"], rec["cli"] + 1, rec.get("cli_stmts", 40)))
         if verbose:
             print(rec["source"], fl)
         return bool(fl)
